@@ -6,7 +6,7 @@ P=${@:-${S%%_*}}
 T=$(mktemp -d /tmp/sswseed.XXXXXX)
 cp -r /repo/src /repo/include $T/ && mkdir -p $T/_build && cp /repo/_build/config.h $T/_build/ 2>/dev/null
 PATCH=$D/patch.diff; [ -f $D/patch_current_tree.diff ] && PATCH=$D/patch_current_tree.diff
-( cd $T && (patch -p1 -s -F3 --no-backup-if-mismatch < $PATCH) ) || { echo "$S: patch does not apply"; rm -rf $T; exit 2; }
+( cd $T && (git apply $PATCH 2>/dev/null || git apply -C1 $PATCH 2>/dev/null || patch -p1 -s -F3 --no-backup-if-mismatch < $PATCH) ) || { echo "$S: patch does not apply"; rm -rf $T; exit 2; }
 for pid in $P; do
   out=$(cd /verif && python3 run.py check $pid --no-evidence --repo $T 2>&1); rc=$?
   nv=$(echo "$out" | grep -c "^VIOLATION")
